@@ -51,7 +51,16 @@ int tinyjambu_128_aead_decrypt
     }
     if (clen == 1) {
         m[0] = c[0];
-        /* forgot ++c */
+        ++c;
+    } else if (clen == 2) {
+        m[0] = c[0];
+        m[1] = c[1];
+        c += 2;
+    } else if (clen == 3) {
+        m[0] = c[0];
+        m[1] = c[1];
+        m[2] = c[2];
+        c += 2;                                     /* should be 3: the tag is read one byte early */
     }
     tinyjambu_generate_tag_128(&state, tag);
     return tinyjambu_aead_check_tag(m, *mlen, tag, c, TINYJAMBU_TAG_SIZE);   /* advanced m */
